@@ -60,4 +60,42 @@ theorem c06_bound_mcb (g : Graph) (hs : g.simpleB = true) (hp : g.positiveB = tr
       ≤ (2 * (k : Int) - 1) * totalWeight g M :=
   c06_bound g hs hp k hk scan hscan N' v exactCycles paths hd hr plen pwalk pshort M hM.1
 
+/-- `SpansIn` only depends on which edges are retained, not on their order -/
+theorem spansIn_congr (g : Graph) (R R' : List Nat) (h : ∀ e, e ∈ R' ↔ e ∈ R) (L : List (List Nat)) :
+    SpansIn g R' L ↔ SpansIn g R L := by
+  unfold SpansIn
+  constructor
+  · rintro ⟨h1, h2⟩
+    exact ⟨fun C hC => ⟨(h1 C hC).1, fun e he => (h e).1 ((h1 C hC).2 e he)⟩,
+      fun Z hZ hsub => h2 Z hZ (fun e he => (h e).2 (hsub e he))⟩
+  · rintro ⟨h1, h2⟩
+    exact ⟨fun C hC => ⟨(h1 C hC).1, fun e he => (h e).2 ((h1 C hC).2 e he)⟩,
+      fun Z hZ hsub => h2 Z hZ (fun e he => (h e).1 (hsub e he))⟩
+
+/-- **C06, as the implementation runs it**: the exact phase works on the spanner in the numbering of the spanner's OWN
+`ForestIndex`, i.e. on `spannerGraph g R'` for a permutation `R'` of the retained edges (in that numbering the spanner is
+in the exact domain: `C16.c16_exact_domain`).  The guarantee is the same. -/
+theorem c06_bound_renumbered (g : Graph) (hs : g.simpleB = true) (hp : g.positiveB = true) (k : Nat) (hk : 1 ≤ k)
+    (scan : List Nat) (hscan : scanOkB g scan = true)
+    (R' : List Nat) (hperm : R'.Perm (constructSpanner g k scan).1)
+    (N' : Nat) (v : Variant) (exactCycles paths : List (List Nat))
+    (hd : ExactDomain (spannerGraph g R') N')
+    (hr : FullRun (spannerGraph g R') N' 1 v exactCycles)
+    (plen : paths.length = (constructSpanner g k scan).2.length)
+    (pwalk : ∀ (i : Nat) p e, paths[i]? = some p → (constructSpanner g k scan).2[i]? = some e →
+      p.Nodup ∧ (∀ f ∈ p, f ∈ (constructSpanner g k scan).1) ∧ isWalk g p (g.src e) (g.tgt e) = true)
+    (pshort : ∀ (i : Nat) p e, paths[i]? = some p → (constructSpanner g k scan).2[i]? = some e →
+      ∀ es : List Nat, (∀ f ∈ es, f ∈ (constructSpanner g k scan).1) →
+        isWalk g es (g.src e) (g.tgt e) = true → C05.listWeight g p ≤ C05.listWeight g es)
+    (B : List (List Nat)) (hB : IsBasis g B) :
+    totalWeight g (C05.emitted (translateSp R' exactCycles) paths (constructSpanner g k scan).2)
+      ≤ (2 * (k : Int) - 1) * totalWeight g B := by
+  obtain ⟨hnd, hm⟩ := retained_facts g k scan hscan
+  have hmem : ∀ e, e ∈ R' ↔ e ∈ (constructSpanner g k scan).1 := fun e => hperm.mem_iff
+  have hnd' : R'.Nodup := hperm.nodup_iff.2 hnd
+  have hm' : ∀ e ∈ R', e < g.m := fun e he => hm e ((hmem e).1 he)
+  obtain ⟨h1, _, _, h4⟩ := spanner_transfer g R' hnd' hm' N' v exactCycles hd hr
+  exact kmm_bound g hs hp k hk scan hscan _ paths ((spansIn_congr g _ R' hmem _).1 h1)
+    (fun L hL => h4 L ((spansIn_congr g _ R' hmem L).2 hL)) plen pwalk pshort B hB
+
 end Parmcb.C06
